@@ -24,8 +24,8 @@ fn main() {
         Ok(c) => c,
         Err(_) => {
             let (msg, loc) = util::take_panic().unwrap_or_default();
-            let any = util::LAST_ANY.lock().ok().and_then(|g| g.clone()).unwrap_or_default();
-            eprintln!("MACHINERY: uncaught panic in the engine (main thread: {msg} at {loc}; last panic anywhere: {any})");
+            let any = util::LAST_ANY.lock().map(|g| g.join(" | ")).unwrap_or_default();
+            eprintln!("MACHINERY: uncaught panic in the engine (main thread: {msg} at {loc}; last panics anywhere: {any})");
             c16::cleanup();
             2
         }
